@@ -257,6 +257,7 @@ func vf18CrashCase(rt *rapid.T, e *ev.Collector, kind vf18CrashKind, tornAll boo
 	nstates, ntorn := 0, 0
 	var lastFS *crashfs.FS
 	var violation string
+	var written *vf18Ident // first-start kinds: identity found completely written at an earlier call boundary
 	enumErr := crashfs.Enumerate(pre, ops, tornAll, func(st crashfs.State) bool {
 		nstates++
 		lastFS = st.FS
@@ -294,8 +295,19 @@ func vf18CrashCase(rt *rapid.T, e *ev.Collector, kind vf18CrashKind, tornAll boo
 			cls = append(cls, "crash-start-torn-write")
 		}
 		if P == nil {
+			// Nothing is claimed without a completed earlier start.  Counted only: an
+			// identity that was completely on disk at an earlier call boundary of this
+			// same start (recovery from there presented it) and is gone at this point.
 			if err != nil {
 				cls = append(cls, "crash-start-no-prior-identity-recovery-fails(nothing-claimed)")
+				if written != nil {
+					cls = append(cls, "crash-start-first-start-identity-written-earlier-then-lost(not-claimed)")
+				}
+			} else if _, _, present := st.FS.File(stateFile); present && st.Torn < 0 && written == nil {
+				id := vf18Presented(sf)
+				written = &id
+			} else if written != nil && !vf18Presented(sf).sameKeys(*written) {
+				cls = append(cls, "crash-start-first-start-identity-written-earlier-then-lost(not-claimed)")
 			}
 		} else {
 			if err != nil {
